@@ -58,6 +58,7 @@ type G struct {
 	Steps    int
 	// StalledNs: simulated time spent in scheduler-imposed stalls
 	StalledNs time.Duration
+	tdHeld    bool
 	// unchecked > 0: the goroutine is inside a monitor's read of library state
 	// (Unchecked): no scheduling points, no lockset bookkeeping
 	unchecked int
@@ -95,6 +96,7 @@ type Run struct {
 	byName   map[string]*G
 	Arrival  chan struct{}
 	AbortCh  chan struct{}
+	tdSem    chan struct{} // teardown: one goroutine at a time runs its deferred functions
 	stalled  int
 	aborting bool
 	live     int
@@ -243,6 +245,7 @@ func Begin() *Run {
 		byName:  map[string]*G{},
 		Arrival: make(chan struct{}, 1),
 		AbortCh: make(chan struct{}),
+		tdSem:   make(chan struct{}, 1),
 	}
 	curMu.Lock()
 	cur = r
@@ -304,6 +307,10 @@ func (r *Run) Spawn(name string, f func()) *G {
 			delete(r.gs, g.goid)
 			r.live--
 			r.mu.Unlock()
+			if g.tdHeld {
+				g.tdHeld = false
+				<-r.tdSem
+			}
 			r.notify()
 		}()
 		r.park(g, "start", nil)
@@ -347,8 +354,7 @@ func (r *Run) park(g *G, point string, need *Mutex) {
 	}
 	r.mu.Unlock()
 	if tok.Abort {
-		g.abort = true
-		runtime.Goexit()
+		r.abortExit(g)
 	}
 	if tok.Stall > 0 {
 		t := time.NewTimer(tok.Stall)
@@ -360,8 +366,7 @@ func (r *Run) park(g *G, point string, need *Mutex) {
 		select {
 		case <-t.C:
 		case <-r.AbortCh:
-			g.abort = true
-			runtime.Goexit()
+			r.abortExit(g)
 		}
 		r.mu.Lock()
 		r.stalled--
@@ -707,6 +712,24 @@ func (r *Run) Release(g *G, tok Token) {
 	g.wake <- tok
 }
 
+// abortExit ends a goroutine of a run that is being torn down. Its deferred functions -
+// library code among them (unlock, clean-up of a registration) - run now; they must not
+// run in parallel with those of the other goroutines that are torn down at the same moment
+// (two deferred deletes on one map are a fatal error of the Go runtime), so the exits
+// take turns. A goroutine that gets stuck in a deferred function gives the turn up after
+// a simulated second.
+func (r *Run) abortExit(g *G) {
+	g.abort = true
+	t := time.NewTimer(time.Second)
+	select {
+	case r.tdSem <- struct{}{}:
+		t.Stop()
+		g.tdHeld = true
+	case <-t.C:
+	}
+	runtime.Goexit()
+}
+
 // Abort releases everything: parked goroutines Goexit, blocked ones wake
 // through AbortCh and Goexit.
 func (r *Run) Abort() {
@@ -935,8 +958,7 @@ func (r *Run) parkRW(g *G, m *RWMutex, write bool) {
 	g.Steps++
 	r.mu.Unlock()
 	if tok.Abort {
-		g.abort = true
-		runtime.Goexit()
+		r.abortExit(g)
 	}
 }
 
@@ -1074,8 +1096,7 @@ func SelectV(point string, hasDefault bool, cases ...Case) (int, reflect.Value, 
 	g.state = gRunning
 	r.mu.Unlock()
 	if idx[chosen] == -2 {
-		g.abort = true
-		runtime.Goexit()
+		r.abortExit(g)
 	}
 	// post-wake scheduling point
 	r.park(g, point+"+woke", nil)
